@@ -24,7 +24,7 @@ RULE = ("one case = one random history (8..14 operations) over 2-3 models (three
         "from num_visible, non-zero biases, custom unitary dictionaries) and 3 files, with metadata in {None, {}, flat, "
         "nested, tensor-valued}. Non-trivial: >= 3 operations of >= 2 kinds including a save and a load/autoload; distinct "
         "by the operation sequence + initial parameters.")
-REQUIRED = ["saves", "save_again_same_metadata", "loads", "autoloads", "reserved_key_rejections", "file_content_checks",
+REQUIRED = ["files_rewritten_after_load", "saves", "save_again_same_metadata", "loads", "autoloads", "reserved_key_rejections", "file_content_checks",
             "metadata_unchanged_checks", "modelsaver_saves", "protected_write_ops_inspected", "custom_dictionary_roundtrips"]
 ANCHOR_FILES = ["qucumber/nn_states/neural_state.py", "qucumber/callbacks/model_saver.py"]
 REACH = [
@@ -71,6 +71,12 @@ def snap(m):
          "arch": (st.num_visible, st.num_hidden, getattr(st, "num_aux", None)),
          "udict": None if not hasattr(st, "unitary_dict") else {k: v.clone() for k, v in st.unitary_dict.items()}}
     return s
+
+
+def full_digest(st):
+    """parameters AND unitary dictionary (tensors of a loaded model may alias / map the file they came from)"""
+    ud = getattr(st, "unitary_dict", None) if hasattr(st, "unitary_dict") else None
+    return monitors.digest([{k: v.data for k, v in monitors.params_of(st).items()}, {} if ud is None else {k: v for k, v in ud.items()}])
 
 
 def same_params(a, b):
@@ -138,6 +144,25 @@ def check_file(ctx, path, s, md, tags, wit):
             ctx.violation("file-metadata", f"metadata key {k!r} not stored alongside (got {str(data.get(k))[:80]})", tags=tags, witness=wit)
 
 
+def rewrite_after_load(ctx, rng, models, mi, tmp, fname, files, tags, wit, ops_done):
+    """history: the file a model was just loaded from is rewritten by ANOTHER model with other metadata (what a ModelSaver
+    with a fixed file name does); the loaded model must keep its parameters and dictionary"""
+    if len(models) < 2 or rng.random() < 0.4:
+        return
+    oj = [j for j in range(len(models)) if j != mi][int(rng.integers(0, len(models) - 1))]
+    before = full_digest(models[mi]["st"])
+    md = {"pad": "x" * int(rng.integers(1, 4000)), "n": int(rng.integers(0, 9))}
+    path = os.path.join(tmp, fname)
+    ctx.lib("save(over the file another model was loaded from)", models[oj]["st"].save, path, md, tags=tags)
+    ctx.count("files_rewritten_after_load")
+    files[fname] = dict(snap(models[oj]), md=dict(md))
+    models[oj]["last_md"] = (md, fname)
+    ops_done.append(f"save m{oj} -> {fname} (rewrite after load)")
+    if full_digest(models[mi]["st"]) != before:
+        ctx.violation("loaded-model-tied-to-file", f"model {mi}, loaded from {fname}, changed when the file was rewritten by another model",
+                      tags=tags, witness=wit)
+
+
 def history(case, ctx, rng, tmp):
     from qucumber.callbacks import ModelSaver
     from qucumber.nn_states import ComplexWaveFunction, DensityMatrix, PositiveWaveFunction
@@ -155,7 +180,7 @@ def history(case, ctx, rng, tmp):
         m = models[mi]
         st = m["st"]
         tags = {"state": m["kind"], "op": str(op)}
-        others = [(j, monitors.params_digest(x["st"])) for j, x in enumerate(models) if j != mi]
+        others = [(j, full_digest(x["st"])) for j, x in enumerate(models) if j != mi]
         if op == "randomise":
             ctx.lib("reinitialize_parameters", st.reinitialize_parameters, tags=tags)
             am, ph = gen.draw_model(rng, m["kind"], st.num_visible, st.num_hidden, getattr(st, "num_aux", None) or 1, scales=[0.3, 1.0])
@@ -248,6 +273,7 @@ def history(case, ctx, rng, tmp):
             if s["udict"] and set(s["udict"]) - {"X", "Y", "Z"}:
                 ctx.count("custom_dictionary_roundtrips")
             ops_done.append(f"load m{mi} <- {fname}")
+            rewrite_after_load(ctx, rng, models, mi, tmp, fname, files, tags, wit, ops_done)
         elif op == "autoload":
             if not files:
                 continue
@@ -269,6 +295,7 @@ def history(case, ctx, rng, tmp):
             models[mi] = nm
             others = [(j, d) for j, d in others]
             ops_done.append(f"autoload {fname} -> m{mi}")
+            rewrite_after_load(ctx, rng, models, mi, tmp, fname, files, tags, wit, ops_done)
         elif op == "reserved":
             keys = ["rbm_am"] + (["rbm_ph", "unitary_dict"] if m["kind"] != "positive" else [])
             key = keys[int(rng.integers(0, len(keys)))]
@@ -302,8 +329,9 @@ def history(case, ctx, rng, tmp):
                                   tags=dict(tags, added_keys=",".join(sorted(set(md) - set(md_before)))), witness=wit)
             ops_done.append(f"modelsaver m{mi}")
         for j, d in others:
-            if j < len(models) and models[j] is not None and j != mi and monitors.params_digest(models[j]["st"]) != d:
-                ctx.violation("other-model-changed", f"operation {op} on model {mi} changed model {j}", tags=tags, witness=wit)
+            if j < len(models) and models[j] is not None and j != mi and full_digest(models[j]["st"]) != d:
+                ctx.violation("other-model-changed", f"operation {op} on model {mi} changed model {j} (parameters or unitary dictionary): a "
+                              "loaded model must not stay tied to the file it came from", tags=tags, witness=wit)
     kinds_done = {o.split()[0] for o in ops_done}
     if len(ops_done) >= 3 and len(kinds_done) >= 2 and any(o.startswith("save") for o in ops_done) and \
             any(o.startswith(("load", "autoload")) for o in ops_done):
